@@ -166,7 +166,10 @@ def init_post(cls, names):
             a = me.v('args')
             ok = ok and a.k == 'tuple' and len(a.items) == 2 and a.items[0] is c._params['args'].items[0] \
                 and a.items[1] is c._params['args'].items[1]
-        return z3.BoolVal(bool(ok) and not [e for e in c.trace if e[0] == 'make-stream'])   # no stream made at construction
+        ev = me.v('_is_event_pattern')
+        not_event = ev.k == 'bool' and z3.is_false(z3.simplify(ev.z))                       # operands are not event patterns
+        return z3.BoolVal(bool(ok) and bool(not_event)
+                          and not [e for e in c.trace if e[0] == 'make-stream'])             # no stream made at construction
     return post
 
 
